@@ -412,7 +412,7 @@ func (u *Unit) load(s *State, a Addr) Term {
 }
 
 func (u *Unit) store(s *State, a Addr, v Term) {
-	if u.fc != nil && u.fc.Pure {
+	if u.restricted() {
 		u.checkPureStore(a)
 	}
 	switch x := a.(type) {
@@ -496,8 +496,8 @@ func (u *Unit) checkPureStore(a Addr) {
 	case AddrField:
 		u.checkPureStore(x.base)
 	case AddrDeref:
-		if !strings.HasPrefix(x.ptr.S, "new.") {
-			panic(abortUnit{"declared pure but writes through pointer " + x.ptr.S})
+		if !u.writeAllowed(x.ptr) {
+			panic(abortUnit{"write set: writes through pointer " + x.ptr.S})
 		}
 	case AddrElem:
 		if !strings.HasPrefix(x.region.S, "arr!") && !strings.HasPrefix(x.region.S, "arr.") {
